@@ -158,6 +158,23 @@ func (fr *Frame) initConstGlobal(s *State, o *types.Var, hn, hs string) {
 	}
 	fr.vc.globalsDone[o] = true
 	gi, ok := fr.eng.globalInit[o]
+	if ok && gi.pkg.TypesInfo != nil {
+		// sentinel errors: var ErrX = errors.New(...) / fmt.Errorf(...) — non-nil and pairwise distinct
+		if call, isCall := ast.Unparen(gi.expr).(*ast.CallExpr); isCall {
+			if sel, isSel := ast.Unparen(call.Fun).(*ast.SelectorExpr); isSel {
+				if f, isF := gi.pkg.TypesInfo.Uses[sel.Sel].(*types.Func); isF {
+					if n := fullName(f); n == "errors.New" || n == "fmt.Errorf" {
+						if _, declared := fr.eng.syms.syms["errid"]; !declared {
+							fr.eng.syms.add("errid", "(declare-fun errid (Int) Int)")
+						}
+						g := s.heap(hn, hs)
+						fr.vc.facts = append(fr.vc.facts, fmt.Sprintf("(and (not (= %s 0)) (= (errid %s) %d))", g, g, fr.eng.typeID(types.NewPointer(types.NewNamed(types.NewTypeName(0, o.Pkg(), "sentinel$"+o.Name(), nil), types.Typ[types.Int], nil)))))
+						return
+					}
+				}
+			}
+		}
+	}
 	if !ok || !heapFree(o.Type()) || gi.pkg.TypesInfo == nil {
 		return
 	}
